@@ -179,6 +179,9 @@ func c07Round(rep *Report, m *MultiFixture, round int, ts []c07Tunnel) {
 	if round%4 == 3 {
 		c07InWithoutID(rep, m, round)
 	}
+	if round%3 == 1 {
+		c07OrphanInThenForeignOut(rep, m, round)
+	}
 	sort.Slice(evs, func(i, j int) bool { return evs[i].seq < evs[j].seq })
 	var sb strings.Builder
 	for _, e := range evs {
@@ -895,4 +898,80 @@ func c07NamedHosts(rep *Report, m *MultiFixture, round int) {
 	}
 	u.B.Reset()
 	v.B.Reset()
+}
+
+// c07OrphanInThenForeignOut: an RDG_IN_DATA request of one user arrives for a connection id that has
+// no OUT channel; a moment later another user opens an OUT channel under a *different* id. The two
+// must never be paired: nothing the first user sends may be answered on the second user's channel.
+func c07OrphanInThenForeignOut(rep *Report, m *MultiFixture, round int) {
+	legacy := false
+	for _, tr := range Transports() {
+		legacy = legacy || tr == "legacy"
+	}
+	if !legacy {
+		return
+	}
+	a := m.Users[round%len(m.Users)]
+	b := m.Users[(round+3)%len(m.Users)]
+	if a == b {
+		return
+	}
+	idA, idB := NewConnID("orphan"), NewConnID("later")
+	type inRes struct {
+		t  *TClient
+		st int
+	}
+	done := make(chan inRes, 1)
+	go func() {
+		x, xres, _ := OpenLegacy(m.GW.Addr, LegacyOpts{ConnID: idA, SkipOut: true, InHeaders: a.Headers})
+		st := 0
+		if xres != nil && xres.In != nil {
+			st = xres.In.Status
+		}
+		done <- inRes{x, st}
+	}()
+	time.Sleep(150 * time.Millisecond)
+	hc, err := DialH(m.GW.Addr, DialOpts{})
+	if err != nil {
+		<-done
+		return
+	}
+	defer hc.Close()
+	r, err := hc.Do("RDG_OUT_DATA", GatewayPath, append(Hdr{{"Rdg-Connection-Id", idB}, {"Accept", "*/*"}}, b.Headers...), nil, 10*time.Second)
+	if err != nil || r.Status != 200 {
+		<-done
+		rep.Inconclusive("orphan-in probe: OUT channel not accepted")
+		return
+	}
+	var ir inRes
+	select {
+	case ir = <-done:
+	case <-time.After(15 * time.Second):
+		rep.Inconclusive("orphan-in probe: the IN request was not answered within 15 s")
+		return
+	}
+	if ir.t != nil {
+		ir.t.Send(m.SymHS().Wire)
+		time.Sleep(200 * time.Millisecond)
+		defer ir.t.Close()
+	}
+	// the gateway's own preamble behind the OUT accept is at most the 100-byte seed; a handshake response
+	// would follow it as a packet of type 2
+	var got []byte
+	for {
+		hc.C.SetReadDeadline(time.Now().Add(300 * time.Millisecond))
+		buf := make([]byte, 1024)
+		n, err := hc.BR.Read(buf)
+		got = append(got, buf[:n]...)
+		if n == 0 || err != nil {
+			break
+		}
+	}
+	hc.C.SetReadDeadline(time.Time{})
+	rep.Eval(HashStr("orphan-in-then-foreign-out", ir.st, ir.t != nil))
+	rep.Count("orphan_in_probes", 1)
+	answered := bytes.Contains(got, []byte{byte(PktHandshakeResp), 0, 0, 0})
+	if ir.st == 200 || answered {
+		rep.Violate("C07/paired-with-foreign-id/orphan-in", fmt.Sprintf("user %s sent RDG_IN_DATA for connection id %q, which has no OUT channel (answer: status %d); 150 ms later user %s opened an OUT channel under id %q and %d bytes arrived on it (handshake response among them: %v)", a.Name, idA, ir.st, b.Name, idB, len(got), answered), nil)
+	}
 }
